@@ -76,35 +76,35 @@ CHECKS["C12"] = dict(
 )
 
 CHECKS["C15"] = dict(
-    text="Static decision of structural necessary conditions of C15 over the Hash_DRBG unit and the integer samplers: an interval analysis with C integer semantics (types, promotions, wrap-around; interprocedural over the static helpers; the reseed counter bounded only by its type because every write of it is a constant or an increment) shows that every carry-propagating big-endian addition accumulates its sum exactly (DRBG-CARRY) and that no length sizing an allocation or copy was narrowed (DRBG-LEN) - both quantify over call histories and seed lengths the two-call vectors never reach; forward must-dataflow over the exploded CFG shows that output is produced only within the 2^16-byte request limit (DRBG-LIMIT), that every normal return of generate performed output, H = Hash(03||V), V += C, V += H with carry, V += counter and then counter++ (DRBG-UPDATE), that (re)seeding derives V from seed resp. 01||V||seed, then C from 00||V, and resets counter and flag (DRBG-SEED), that bn_rand_mod returns reduced and non-zero values (RAND-RANGE), that bn_rand masks and normalises (RAND-BITS), and the call graph shows no other source of randomness (RAND-SOURCE). Byte-for-byte equality with SP 800-90A (hash function, hash_df arithmetic) is a value property and is not decided.",
+    text="Static decision of structural necessary conditions of C15 over the Hash_DRBG unit and the integer samplers: an interval analysis with C integer semantics (types, promotions, wrap-around; interprocedural over the static helpers; the reseed counter bounded only by its type because every write of it is a constant or an increment) shows that every carry-propagating big-endian addition accumulates its sum exactly and is not a hand-rolled ripple through a fixed number of bytes (DRBG-CARRY) and that no length sizing an allocation or copy was narrowed (DRBG-LEN) - both quantify over call histories and seed lengths the two-call vectors never reach; forward must-dataflow over the exploded CFG shows that output is produced only within the 2^16-byte request limit (DRBG-LIMIT), that every normal return of generate performed output, H = Hash(03||V), V += C, V += H with carry, V += counter and then counter++ (DRBG-UPDATE), that (re)seeding derives V from seed resp. 01||V||seed, then C from 00||V, and resets counter and flag (DRBG-SEED), that bn_rand_mod returns reduced and non-zero values (RAND-RANGE), that bn_rand masks and normalises (RAND-BITS), and the call graph shows no other source of randomness (RAND-SOURCE). Byte-for-byte equality with SP 800-90A (hash function, hash_df arithmetic) is a value property and is not decided.",
     design_ref="DESIGN.md section 3 (C15)",
     note="Trusted: clang parser/CFG/constant evaluator, extractor, sa/py/relic_sa/intervals.py (flow-insensitive intervals with widening; branch facts only refine arguments at call sites), the recognition of the update steps by callee name and argument shape (a generate/seed function without the helpers is analysis-broken, not a verdict). Validated on every run by miniatures in sa/selftest/c15.c.",
     technique="interval abstract interpretation (C integer semantics, interprocedural) + forward must-dataflow (ordered must-pass-through events) + call-graph who-may-call rule over the clang CFG",
 )
 
 CHECKS["C02"] = dict(
-    text="Static decision of structural necessary conditions of C02 over the prime-field module under the 256-, 255- and 381-bit configuration headers: every one of the seven selectable inversion algorithms returns normally only where fp_is_zero(a) was tested false, the zero side leaving by the error (INV0, forward must-dataflow with branch atoms - the default build selects one variant, the suite runs one); every exponentiation sibling answers 1 for the zero exponent and consults the sign of the exponent on every path returning a power (EXP-SIB); a truthy verdict of fp_srt implies a squareness test of the argument in every arm of the p mod 4 switch (SRT-VERDICT, the suite runs one prime per build); the five low-level routines whose raw result lies in [0, 2p) return only after a comparison with the modulus or its subtraction, not the carry test alone (CANON: the unreduced window [p, 2^k) is hit with probability about 2^-32..2^-2 depending on the prime and never checked by the suite, which has no canonical-form oracle); no function of the module stores through a const parameter (CONST-IN, parameter-write summaries over the call graph). Range checks of conversions are decided under C07 (RANGE-FP). Residues, Montgomery arithmetic, roots' values and agreement of algorithm variants are value properties and are not decided.",
+    text="Static decision of structural necessary conditions of C02 over the prime-field module under the 256-, 255- and 381-bit configuration headers: every one of the seven selectable inversion algorithms returns normally only where fp_is_zero(a) was tested false, the zero side leaving by the error (INV0, forward must-dataflow with branch atoms - the default build selects one variant, the suite runs one); every exponentiation sibling answers 1 for the zero exponent and consults the sign of the exponent on every path returning a power (EXP-SIB); a truthy verdict of fp_srt implies a squareness test of the argument in every arm of the p mod 4 switch (SRT-VERDICT, the suite runs one prime per build); the five low-level routines whose raw result lies in [0, 2p) return only after a comparison with the modulus or its subtraction, not the carry test alone (CANON: the unreduced window [p, 2^k) is hit with probability about 2^-32..2^-2 depending on the prime and never checked by the suite, which has no canonical-form oracle); where a raw carry-returning addition is followed by the comparison with the modulus the carry-out is consulted (CANON-CARRY, analysed also under FP_RDC=QUICK where the small-constant forms use the idiom); no function of the module stores through a const parameter (CONST-IN, parameter-write summaries over the call graph); no input element is read in a later statement than a write of an output element that may be the same object (ALIAS-RW: 'out==in aliasing'). Range checks of conversions are decided under C07 (RANGE-FP). Residues, Montgomery arithmetic, roots' values and agreement of algorithm variants are value properties and are not decided.",
     design_ref="DESIGN.md section 3 (C02)",
     note="Trusted: clang parser/CFG, extractor, the family tables (names of the inversion/exponentiation variants computed by pattern; the CANON family of five routines frozen from the tree, a vanished member is analysis-broken), parameter-write summaries (stores through casts are seen; stores through pointers kept inside const structs are not). Validated on every run by miniatures in sa/selftest/c02.c.",
     technique="forward must-dataflow (guard dominance at normal returns, verdict-implication facts) + sibling agreement + parameter-write summaries over the clang CFG/call graph",
 )
 
 CHECKS["C09"] = dict(
-    text="Static decision of structural necessary conditions of C09 over src/bn: every normal return of the three prime generators is reached with bn_is_prime(a) tested true after the last write of the result and, for the basic and strong generators, with bn_bits(a) == bits established by a loop condition (GEN-POST; forward must-dataflow with branch atoms and flag-conditioned facts for the found/retry idiom - the suite asserts primality only, never the length); every modular-exponentiation sibling (basic, sliding window, Montgomery ladder; the build selects one) consults the sign of the exponent on every path returning a power, and answers 1 where it tells the zero exponent apart (MXP-SIB); integer square root and Legendre/Jacobi symbols return normally only outside their excluded arguments (ARG-GUARD). Scalar-recoding buffer contracts (digits/length promised) are decided under C08 (REC-GUARD, BUF-LEN). Values of reductions, exponentiations, inverses, gcd cofactors, symbols, interpolation, the soundness of the primality tests and that a recoding denotes its input are value properties and are not decided.",
+    text="Static decision of structural necessary conditions of C09 over src/bn: every normal return of the three prime generators is reached with bn_is_prime(a) tested true after the last write of the result and, for the basic and strong generators, with bn_bits(a) == bits established by a loop condition (GEN-POST; forward must-dataflow with branch atoms and flag-conditioned facts for the found/retry idiom - the suite asserts primality only, never the length); every modular-exponentiation sibling (basic, sliding window, Montgomery ladder; the build selects one) consults the sign of the exponent on every path returning a power, and answers 1 where it tells the zero exponent apart (MXP-SIB); integer square root and Legendre/Jacobi symbols return normally only outside their excluded arguments (ARG-GUARD); bn_is_prime accepts only after trial division and a probabilistic test, or below a bound that constant evaluation of the trial-prime table shows to be at most the square of the last trial prime (PRIME-PIPE). Scalar-recoding buffer contracts (digits/length promised) are decided under C08 (REC-GUARD, BUF-LEN). Values of reductions, exponentiations, inverses, gcd cofactors, symbols, interpolation, the soundness of the primality tests and that a recoding denotes its input are value properties and are not decided.",
     design_ref="DESIGN.md section 3 (C09)",
     note="Trusted: clang parser/CFG, extractor, the sibling sets computed by name pattern (floors 3+3), the table of argument guards read from the functions' documentation. The exact-length claim is made only for the generators whose construction establishes it; bn_gen_prime_safep restores a from (a-1)/2 and is held to primality only. Validated on every run by miniatures in sa/selftest/c09.c.",
     technique="forward must-dataflow (post-condition facts at normal returns, flag-conditioned facts) + sibling agreement over the clang CFG",
 )
 
 CHECKS["C04"] = dict(
-    text="Static decision of the identity clause of C04 ('a pairing with the identity element in either slot is the identity of the target group', also at arbitrary positions inside a multi-pairing) over all pairing entry points pp_map_{tatep,weilp,oatep}_k{1,2,8,12,16,18,24,48,54} and their multi-pairing forms, which compile under every configuration header but of which the suite runs only the default curve's: forward must-dataflow with branch atoms over the exploded CFG shows that every Miller-loop call of a single pairing is dominated by the not-identity tests of both operands or of the points they were normalised from (MIL-GUARD), that multi-pairings increment the compaction counter and fill the compacted arrays only under both tests and hand exactly those local arrays and that counter to the loop (MIL-COMPACT), and that on every normal return where no loop ran the result was last set to one, through copies, products, squares, inverses and final exponentiations of one (ID-ONE). Bilinearity, non-degeneracy, the order of pairing values and equality of a multi-pairing with the product of pairings are algebraic and are not decided.",
+    text="Static decision of the identity clause of C04 ('a pairing with the identity element in either slot is the identity of the target group', also at arbitrary positions inside a multi-pairing) over all pairing entry points pp_map_{tatep,weilp,oatep}_k{1,2,8,12,16,18,24,48,54} and their multi-pairing forms, which compile under every configuration header but of which the suite runs only the default curve's: forward must-dataflow with branch atoms over the exploded CFG shows that every Miller-loop call of a single pairing is dominated by the not-identity tests of both operands or of the points they were normalised from (MIL-GUARD), that multi-pairings increment the compaction counter and fill the compacted arrays only under both tests and hand exactly those local arrays and that counter to the loop (MIL-COMPACT), that the local operand arrays the loops read as affine coordinates are written by normalisers only (MIL-NORM: projective inputs), that under each selectable pairing (optimal ate, Tate, Weil configuration headers) pc_map and pc_map_sim expand to the same variant (MAP-DISPATCH), and that on every normal return where no loop ran the result was last set to one, through copies, products, squares, inverses and final exponentiations of one (ID-ONE). Bilinearity, non-degeneracy, the order of pairing values and equality of a multi-pairing with the product of pairings are algebraic and are not decided.",
     design_ref="DESIGN.md section 3 (C04)",
     note="Trusted: clang parser/CFG, extractor, the name patterns of pairing entry points, Miller loops, normalisers and unit-preserving field operations; that rewriting only the affine coordinates x, y of a point keeps it finite (the Frobenius twist inside the Weil pairings). Entry points that only delegate have no obligations. Validated on every run by miniatures in sa/selftest/c04.c.",
     technique="forward must-dataflow (guard dominance at Miller-loop call sites, unit-value tokens) + sibling agreement over the clang CFG",
 )
 
 CHECKS["C01"] = dict(
-    text="Static decision of the representation clauses of C01 ('in a normalised representation (no leading zero digits, zero is non-negative), and leaves its inputs unchanged') over every function of src/bn - public operations and static helpers, all algorithm variants, since none is stripped from the build: forward must-dataflow over the exploded CFG with a 'normalised' token per integer parameter, voided by stores to ->used and to digits (directly or through a low-level routine handed ->dp) and restored by bn_trim or any bn_* operation writing the integer, shows that every normal return hands back normalised outputs (NF); the same with stores of a possibly negative sign shows that a zero result is never left negative (NF-SIGN: the suite tests zero with bn_is_zero, which ignores the sign); where the digit count of an integer that keeps its value is raised, the digits brought into use are cleared under the growth test (GROW-CLEAR: digits beyond the count are unspecified); parameter-write summaries over the call graph show that const inputs are never stored through, also via casts (CONST-IN). That the digits are the mathematical result - carry chains, Knuth D quotient correction, Comba columns, Karatsuba splits, aliasing of digit vectors - quantifies over operand values and is not decided.",
+    text="Static decision of the representation clauses of C01 ('in a normalised representation (no leading zero digits, zero is non-negative), and leaves its inputs unchanged') over every function of src/bn - public operations and static helpers, all algorithm variants, since none is stripped from the build: forward must-dataflow over the exploded CFG with a 'normalised' token per integer parameter, voided by stores to ->used and to digits (directly or through a low-level routine handed ->dp) and restored by bn_trim or any bn_* operation writing the integer, shows that every normal return hands back normalised outputs (NF); the same with stores of a possibly negative sign shows that a zero result is never left negative (NF-SIGN: the suite tests zero with bn_is_zero, which ignores the sign); where the digit count of an integer that keeps its value is raised, the digits brought into use are cleared under the growth test (GROW-CLEAR: digits beyond the count are unspecified); parameter-write summaries over the call graph show that const inputs are never stored through, also via casts (CONST-IN); a field-sensitive may-analysis shows that no field of an input integer is read in a later statement than a write of that field of an output integer of the same type, i.e. the clause 'also when the output object is one of the inputs' as far as it is visible in statement order (ALIAS-RW; three reviewed exceptions with reasons). That the digits are the mathematical result - carry chains, Knuth D quotient correction, Comba columns, Karatsuba splits, aliasing inside one low-level call - quantifies over operand values and is not decided.",
     design_ref="DESIGN.md section 3 (C01)",
     note="Trusted: clang parser/CFG, extractor, the assumption that integer parameters are normalised on entry, the table of outputs that are normal by construction (bn_zero, bn_set_dig, bn_set_2b, bn_dbl, bn_set_bit; one reason each in rules/c01.py), the table of bn_* functions that do not give their first argument a value. NF-SIGN is decided in the anchored files only (a constant negative sign stored into a provably non-zero recoding limb in bn_rec_frb is outside what the rule can see). Validated on every run by miniatures in sa/selftest/c01.c.",
     technique="forward must-dataflow (must-pass-through of a normaliser after the last raw write) + parameter-write summaries over the clang CFG/call graph",
